@@ -196,7 +196,10 @@ def run_case(case, drv):
         ws = words_of(spec)
         for text, pred in [(("(a|b)*", lambda w: True), ("a*", lambda w: all(c == "a" for c in w)),
                             ("b (a|b)*", lambda w: w[:1] == ("b",)), ("a", lambda w: w == ("a",)),
-                            ("b", lambda w: w == ("b",)), ("a*", lambda w: all(c == "a" for c in w)))[case["pseed"] % 6]]:
+                            ("b", lambda w: w == ("b",)), ("a*", lambda w: all(c == "a" for c in w)),
+                            # symbols spelled like non-terminals of the grammar
+                            ("S", lambda w: w == ("S",)), ("A|a", lambda w: w in (("A",), ("a",))),
+                            ("a S", lambda w: w == ("a", "S")))[case.get("rx", case["pseed"]) % 9]]:
             kept = {}
 
             def run_i(text=text):
@@ -242,7 +245,7 @@ def run_case(case, drv):
             if hit and got[1] is True:
                 res.violation("intersection", "empty although a derivable word is accepted by the regular language",
                               detail={"regex": text, "word": hit[0]})
-            if text == "(a|b)*" and truth is True and got[1] is False and not ws:
+            if truth is True and got[1] is False:
                 res.violation("intersection", "non-empty although the grammar's language is empty",
                               detail={"regex": text})
     return res
